@@ -78,7 +78,8 @@ func substIfTree(s *slip.Scope, tree, rep slip.Object, pc, kc slip.Caller, depth
 		dup := make(slip.List, len(list))
 		for i, e := range list {
 			if tail, ok2 := e.(slip.Tail); ok2 {
-				dup[i] = slip.Tail{Value: substIfTree(s, tail.Value, rep, pc, kc, depth)}
+				// The new cdr can be a list or nil.
+				return dup[:i].WithCdr(substIfTree(s, tail.Value, rep, pc, kc, depth))
 			} else {
 				dup[i] = substIfTree(s, e, rep, pc, kc, depth)
 			}
